@@ -2,7 +2,7 @@
    carry, loading allocates at most (sheet limit + number of row elements) rows and writes inside what it allocated;
    an index read from the file selects a table entry only if it is one.  Parsers (zip, XML, compound file), time
    and memory of the whole call battery are measured on the enumerated mutation space (DESIGN C14). *)
-From VF Require Import Base.Prelude Generated.Consts C14.Model C14.Proofs.
+From VF Require Import Base.Prelude Generated.Consts C14.Model C14.Proofs C14.Alloc.
 
 Theorem C14_check_sheet_safe : forall rs, Forall (fun p => 0 <= snd p <= TotalRows) rs ->
   let '(n, pl) := check_sheet rs in
@@ -22,6 +22,13 @@ Theorem C14_check_row_safe : forall cells, (forall c, In (Some c) cells -> 1 <= 
     (length t = length cells \/ Z.of_nat (length t) = width_max (assign_cols cells 0)).
 Proof. exact check_row_safe. Qed.
 Print Assumptions C14_check_row_safe.
+
+(* allocation in proportion to the input: the row checkRow rebuilds is never longer than the largest column a cell
+   reference names (validated to 1..MaxColumns) plus the number of cells present in the row *)
+Theorem C14_check_row_alloc : forall cells, (forall c, In (Some c) cells -> 1 <= c <= MaxColumns) ->
+  exists t, check_row cells = Ok t /\ Z.of_nat (length t) <= MaxColumns + Z.of_nat (length cells).
+Proof. intros cells H. apply check_row_alloc; [unfold MaxColumns; lia|exact H]. Qed.
+Print Assumptions C14_check_row_alloc.
 
 Theorem C14_check_row_before_repair : exists cells, (forall c, In (Some c) cells -> 1 <= c) /\
   check_row_before_repair cells = Panic 1.
